@@ -451,7 +451,13 @@ func (r *Reader) PageCount() (int, error) {
 	if err := r.ensurePageTree(); err != nil {
 		return 0, err
 	}
-	return r.pageTree.Count()
+	// Count the page leaves instead of trusting /Count: the entry comes from the
+	// file, and callers size allocations and loops by this number.
+	pageList, err := r.pageTree.Pages()
+	if err != nil {
+		return 0, err
+	}
+	return len(pageList), nil
 }
 
 // GetPage returns the page at the given index (0-based)
